@@ -123,37 +123,50 @@ def check_graph(ctx, graph, monitor_prefix="C19", extra=None):
         ctx.sample(case)
 
 
-def check_edit_history(ctx, graph, rng, steps=2):
+def apply_edit(graph, edit):
+    op, a, b = edit
+    succ = graph[a]
+    is_set = isinstance(succ, (set, frozenset))
+    if op == "del":
+        if is_set:
+            succ.discard(b)
+        else:
+            while b in succ:
+                succ.remove(b)
+    elif op == "add":
+        succ.add(b) if is_set else succ.append(b)
+    else:
+        graph[b] = set() if is_set else []
+        succ.add(b) if is_set else succ.append(b)
+
+
+def check_edit_history(ctx, graph, rng, steps=2, edits=None):
     """History workload: the SAME graph object is sorted, edited in place (an edge added to / removed from a successor
-    collection, a vertex added), and sorted again; each answer must be exact for the graph as it is at that moment."""
+    collection, a vertex added), and sorted again; each answer must be exact for the graph as it is at that moment.
+    The initial graph and the edits are recorded in the case, so that a replay re-creates the history."""
     verts = list(graph)
     if not verts:
         return
-    edits = []
-    for _ in range(steps):
-        a, b = rng.choice(verts), rng.choice(verts)
-        succ = graph[a]
-        if b in succ and rng.random() < 0.6:
-            if isinstance(succ, (set, frozenset)):
-                succ.discard(b)
-            else:
-                while b in succ:
-                    succ.remove(b)
-            edits.append(["del", str(a), str(b)])
-        elif rng.random() < 0.85 or len(graph) >= 6:
-            if isinstance(succ, (set, frozenset)):
-                succ.add(b)
-            else:
-                succ.append(b)
-            edits.append(["add", str(a), str(b)])
+    initial = {str(k): (sorted(v, key=repr) if isinstance(v, (set, frozenset)) else list(v)) for k, v in graph.items()}
+    lists = not all(isinstance(v, (set, frozenset)) for v in graph.values())
+    done = []
+    for step in range(len(edits) if edits is not None else steps):
+        if edits is not None:
+            e = edits[step]
         else:
-            new = f"new{len(graph)}" if isinstance(verts[0], str) else len(graph) + 100
-            graph[new] = set() if isinstance(succ, (set, frozenset)) else []
-            graph[a].add(new) if isinstance(succ, (set, frozenset)) else graph[a].append(new)
-            verts.append(new)
-            edits.append(["vertex", str(a), str(new)])
+            a, b = rng.choice(verts), rng.choice(verts)
+            if b in graph[a] and rng.random() < 0.6:
+                e = ("del", a, b)
+            elif rng.random() < 0.85 or len(graph) >= 6:
+                e = ("add", a, b)
+            else:
+                new = f"new{len(graph)}" if isinstance(verts[0], str) else len(graph) + 100
+                verts.append(new)
+                e = ("vertex", a, new)
+        apply_edit(graph, e)
+        done.append([e[0], e[1], e[2]])
         ctx.count("mon.edit_history")
-        check_graph(ctx, graph, extra={"history": "same graph object sorted before, then edited in place", "edits": [list(e) for e in edits]})
+        check_graph(ctx, graph, extra={"history": "same graph object sorted before, then edited in place", "initial": initial, "initial_lists": lists, "edits": [list(x) for x in done]})
 
 
 def graph_from_bits(n, bits, names=None):
@@ -290,6 +303,13 @@ def replay(ctx, case):
     def key(k):
         return int(k) if k.lstrip("-").isdigit() else k
 
+    if case.get("initial") is not None:
+        # history case: rebuild the initial graph, sort it, then apply the recorded edits in place one by one
+        conv0 = (lambda v: [key(x) if isinstance(x, str) else x for x in v]) if case.get("initial_lists") else (lambda v: {key(x) if isinstance(x, str) else x for x in v})
+        g0 = {key(k): conv0(v) for k, v in case["initial"].items()}
+        check_graph(ctx, g0)
+        check_edit_history(ctx, g0, None, edits=[(op, key(a) if isinstance(a, str) else a, key(b) if isinstance(b, str) else b) for op, a, b in case["edits"]])
+        return
     conv = (lambda v: [key(x) if isinstance(x, str) else x for x in v]) if case.get("lists") else (lambda v: {key(x) if isinstance(x, str) else x for x in v})
     g = {key(k): conv(v) for k, v in case["graph"].items()}
     check_graph(ctx, g)
